@@ -29,6 +29,7 @@ from vlib.build import BuildError
 from tools.gen import loop as gen_loop
 from tools.gen import fds as gen_fds
 from tools.gen import fdpaths as gen_fdpaths
+from tools.gen import rootpaths as gen_rootpaths
 from tools.gen.csrc import ExtractError
 
 sys.path.insert(0, os.path.join(VERIF, "harness", "C20"))
@@ -53,7 +54,9 @@ THEOREMS = ["JanetModel.Props.C20." + t for t in (
     "selfpipe_cfg_drains", "selfpipe_handle_conserve", "selfpipe_handle_drains", "selfpipe_conservation", "selfpipe_no_event_stranded",
     "selfpipe_all_delivered_after_poll", "selfpipe_gen_no_event_stranded", "bounded_read_strands_events",
     # session 4: every control-flow path of 10 descriptor-creating functions, extracted from the source, replayed in Lean
-    "fd_paths_ok", "fd_paths_sites_in_table", "fd_paths_cover_sites", "fd_run_count", "fd_paths_balanced")]
+    "fd_paths_ok", "fd_paths_sites_in_table", "fd_paths_cover_sites", "fd_run_count", "fd_paths_balanced",
+    # session 4: every control-flow path of the functions that pin / release objects for an event-loop operation
+    "root_paths_ok", "root_paths_functions", "root_ops_match_model")]
 
 ENV = dict(os.environ, ASAN_OPTIONS="detect_leaks=0:abort_on_error=0", UBSAN_OPTIONS="print_stacktrace=1")
 SCRATCH = "/var/tmp/janet-verif-c20"
@@ -326,9 +329,11 @@ def run(ctx):
         fd_facts = gen_fds.extract(ctx.build.tree)
         ctx.gen("FdPaths.lean", gen_fdpaths.render(ctx.build.tree))
         path_facts = gen_fdpaths.extract(ctx.build.tree)
+        ctx.gen("RootPaths.lean", gen_rootpaths.render(ctx.build.tree))
+        root_facts = gen_rootpaths.extract(ctx.build.tree)
     except ExtractError as e:
-        gen_facts = fd_facts = path_facts = None
-        broken.append("translator tools/gen/loop.py / fds.py / fdpaths.py: %s" % e)
+        gen_facts = fd_facts = path_facts = root_facts = None
+        broken.append("translator tools/gen/loop.py / fds.py / fdpaths.py / rootpaths.py: %s" % e)
         ctx.broken.append(broken[-1])
     except BuildError as e:
         ctx.violation("build-failed", {"kind": "build", "error": str(e)[-3000:]}, found=False, what="tree does not build")
@@ -493,6 +498,7 @@ def run(ctx):
         "correspondence_events": corr_events, "correspondence_steps_compared": corr_snaps, "correspondence_mixes_differing": len(corr_diffs),
         "generated": {"tchan_unroot": gen_facts["tchan_unroot"], "close_notifies_both": gen_facts["close_notifies_both"],
                       "fd_sites": dict((k, sum(1 for x in fd_facts["fd"] if x[2] == k)) for k in ("create", "close", "wrap", "raise")) if fd_facts else None,
+                      "root_paths": len(root_facts["paths"]) if root_facts else None,
                       "fd_paths": len(path_facts["paths"]) if path_facts else None, "fd_path_functions": path_facts["functions"] if path_facts else None,
                       "selfpipe": [gen_facts["selfpipe_batch"], gen_facts["selfpipe_recur"], gen_facts["selfpipe_edge"]],
                       "child_sites": len(fd_facts["child"]) if fd_facts else None, "thread_sites": len(fd_facts["thread"]) if fd_facts else None,
